@@ -290,6 +290,10 @@ func (x *X) backtrack() bool {
 	return false
 }
 
+// replaying reports whether execution is still inside the decision prefix shared with an
+// earlier path (everything there has been checked before).
+func (x *X) replaying() bool { return x.pos < len(x.trace) }
+
 // gopanic ends the path with a Go run-time panic outcome.
 func (x *X) gopanic(msg string) {
 	panic(pathEnd{"panic", msg})
